@@ -97,7 +97,8 @@ def enum_from_disc(ed: EnumDef, e):
 # fields
 
 def inner_name(n):
-    return f"In{n}"
+    # a user type whose name is "letter + digits" on purpose (must not be mistaken for an integer type)
+    return f"N{n}"
 
 
 def inner_decl(n, debug=False, doc=False):
@@ -537,7 +538,7 @@ def field_to_py(f: Field):
     if f.enum is not None:
         e = f.enum
         d["enum"] = {"n": e.n, "exhaustive": e.exhaustive, "discs": [hex(x) for x in e.discs], "dead": [hex(x) for x in e.dead],
-                     "spell": e.spell, "omit_exh": e.omit_exh, "dead_first": e.dead_first}
+                     "spell": e.spell, "omit_exh": e.omit_exh, "dead_first": e.dead_first, "alias": e.alias}
     return d
 
 
@@ -548,7 +549,7 @@ def field_from_py(d):
     if d.get("enum"):
         e = d["enum"]
         d["enum"] = EnumDef(e["n"], e["exhaustive"], tuple(int(x, 16) for x in e["discs"]), tuple(int(x, 16) for x in e["dead"]),
-                            e["spell"], e["omit_exh"], dead_first=e.get("dead_first", False))
+                            e["spell"], e["omit_exh"], dead_first=e.get("dead_first", False), alias=e.get("alias", ""))
     return Field(**d)
 
 
